@@ -1707,12 +1707,13 @@ def run_impl(case):
         if a[0] == "err":
             stats["td_error"] = 1
         # the same data behind another store (`td_store_irrelevant`)
-        kind = rng.choice(["aud", "simple"] if not ds else ["aud"])
-        c2 = evaluate(build(data, kind, ds, order_seed=seed), q, init=ib)
-        compared += 1
-        if c2 != a:
-            viol.append("store-%s: the top-down fragment query over %s gives %s, over Memory %s"
-                        % (kind, kind, _short(c2), _short(a)))
+        if not ds:      # (a Dataset needs a graph-aware store: Memory only)
+            kind = rng.choice(["aud", "simple"])
+            c2 = evaluate(build(data, kind, ds, order_seed=seed), q, init=ib)
+            compared += 1
+            if c2 != a:
+                viol.append("store-%s: the top-down fragment query over %s gives %s, over Memory %s"
+                            % (kind, kind, _short(c2), _short(a)))
         if case.get("tails"):
             # the VALUES form (row at the end of the group, no initBindings): `initbindings_values_td`
             qv = _copy(q)
